@@ -83,6 +83,8 @@ def check(item, tier):
     with warnings.catch_warnings():
         warnings.simplefilter('ignore')
         pomdp = SpecPOMDP(ps, SLAB[li], ALAB[li], OLAB[oi_], explicit_lists=True)
+        if (li + oi_) % 2 == 1:
+            pomdp.obs_kind = 'special'      # Dirac / equal-probability observation kernels as Deterministic / Uniform distributions
         sl, al, ol = pomdp.sl, pomdp.al, pomdp.ol
 
         def bad(kind, detail, finding=None):
